@@ -126,6 +126,10 @@ UNITS = {
         'engine': 'verus', 'complete': True,
         'title': 'hexescape::<N> closures: exactly N digits, hex value, Unicode scalar values only (unbounded, under assumed from_str_radix / char::from_u32 contracts)',
     },
+    'V16': {
+        'engine': 'verus', 'complete': True,
+        'title': 'first-byte dispatch tables of the grammar: newline (LF / CR LF), document line dispatch (# [ newline keyval), simple-key (basic / literal / unquoted) = the ABNF alternatives (every byte)',
+    },
     'V15': {
         'engine': 'verus', 'complete': True,
         'title': 'string value closures of parser/strings.rs: ml-literal body with every CRLF -> LF and nothing else changed; ml-basic newline contributes LF, line-ending backslash nothing, an escape its character (unbounded, under assumed str::contains / str::replace contracts)',
@@ -215,7 +219,7 @@ PLAN = {
     'C10': {'quick': ['V1', 'K1'], 'thorough': ['V1', 'K1']},
     'C04': {'quick': ['V1', 'V3', 'V4', 'V5', 'V6', 'V7', 'V9', 'V10', 'V11', 'K1', 'K12', 'K8q'], 'thorough': ['V1', 'V3', 'V4', 'V5', 'V6', 'V7', 'V9', 'V10', 'V11', 'K1', 'K12', 'K8t', 'K3t', 'K5']},
     'C11': {'quick': ['K7', 'K7s', 'K6e', 'K6t', 'K6d', 'V8', 'V12', 'K11f'], 'thorough': ['K7', 'K7s', 'K6e', 'K6t', 'K6d', 'V8', 'V12', 'K11f']},
-    'C01': {'quick': ['K1', 'K7', 'V3', 'V4', 'V8', 'V9', 'K2'], 'thorough': ['K1', 'K7', 'V3', 'V4', 'V8', 'V9', 'K2', 'K2y', 'K5']},
+    'C01': {'quick': ['K1', 'K7', 'V3', 'V4', 'V8', 'V9', 'V16', 'K2'], 'thorough': ['K1', 'K7', 'V3', 'V4', 'V8', 'V9', 'V16', 'K2', 'K2y', 'K5']},
     'C02': {'quick': ['K2', 'K7s', 'K6t', 'K6d', 'V5', 'V7', 'V8', 'V9', 'V11', 'V12', 'V15'], 'thorough': ['K2', 'K2y', 'K7s', 'K6t', 'K6d', 'V5', 'V7', 'V8', 'V9', 'V11', 'V12', 'V15', 'K5']},
     'C05': {'quick': ['V3', 'K12'], 'thorough': ['V3', 'K12']},
     'C12': {'quick': ['V4', 'V5', 'V6', 'V7', 'V11', 'K2', 'K3q'], 'thorough': ['V4', 'V5', 'V6', 'V7', 'V11', 'K2', 'K2y', 'K3q', 'K3t', 'K3a']},
